@@ -68,6 +68,7 @@ func c10World(t *testing.T, r *simcore.Run) any {
 		tr = ntsSCIONTransport{newNTSSCIONWorld(r, 2)}
 		r.Probe("transport:scion")
 	} else {
+		ipDrawFamily(r)
 		tr = ntsIPTransport{newNTSWorld(r, 2)}
 	}
 	net := tr.network()
